@@ -60,6 +60,9 @@ def _main(args):
     mname = spec["machine"]
     mcls = registry.machine(mname)
     seed = int(os.environ.get("VERIF_SEED") or 0)
+    if hasattr(mcls, "prepare"):
+        # reference observations that need a process which has not executed any history
+        mcls.prepare(prop)
 
     if args.replay:
         return do_replay(core, mcls, prop, args.replay, args.v)
